@@ -1,6 +1,7 @@
 import PytezosModel.Michelson.Interp.Syntax
 import PytezosModel.Michelson.Interp.Typing
 import PytezosModel.Michelson.Collections
+import PytezosModel.Micheline.Binary
 /-! `Spec.eval` — big-step reference semantics of the modelled Michelson core over a plain list stack,
 written from the Michelson reference (not from the pytezos code).  Outcomes (`Res`): a stack, a FAILWITH value, a
 runtime failure (`rtfail`: mutez overflow / underflow, shift by more than 256 bits), out of fuel (`oof`), `stuck`.
@@ -309,6 +310,96 @@ def transferTokensV (env : Env) : Val → Val → Val → Res Val
     if typeOf p = t then .ok (.opTransfer env.self (addrOf s) (epOf s) m p t) else .stuck
   | _, _, _ => .stuck
 
+/-! ### Phase B (first half): PACK of the plain data classes.  `PACK v` = the byte `05` followed by the binary Micheline of the
+canonical *optimized* form of `v`: numbers as integers (a timestamp as its seconds), a right comb of 2 components as `Pair a b`,
+of 3 as `Pair a (Pair b c)`, of 4 or more as the sequence of its components, sets / lists as sequences, maps as sequences of
+`Elt`.  Binary Micheline (Tezos data encoding): `00` zarith integer; `01` / `0a` string / bytes with a 4-byte big-endian
+length; `02` sequence with the 4-byte length of its body; `03 tag` / `05 tag arg` / `07 tag arg arg` primitive applications
+without annotations; primitive tags: False 3, Elt 4, Left 5, None 6, Pair 7, Right 8, Some 9, True 10, Unit 11. -/
+/-- a right comb of 2 components is `Pair a b`, of 3 `Pair a (Pair b c)`, of 4 or more the sequence of its components -/
+def combLayout : List BMich → BMich
+  | [x, y] => .prim 7 [x, y] none
+  | [x, y, z] => .prim 7 [x, .prim 7 [y, z] none] none
+  | cs => .seq cs
+
+mutual
+  /-- first component: the canonical optimized Micheline of the value (`BMich`: primitives as tags, strings as bytes);
+  second: the components it contributes when it stands as the right part of a pair — those of its own right spine if it
+  is a pair, else the value itself.  `none`: a value outside the plain classes -/
+  def optBoth : Val → Option (BMich × List BMich)
+    | .pair a b =>
+      match optBoth a, optBoth b with
+      | some x, some y => some (combLayout (x.1 :: y.2), x.1 :: y.2)
+      | _, _ => none
+    | .unit => some (.prim 11 [] none, [.prim 11 [] none])
+    | .bool true => some (.prim 10 [] none, [.prim 10 [] none])
+    | .bool false => some (.prim 3 [] none, [.prim 3 [] none])
+    | .num _ v => some (.int v, [.int v])
+    | .str s => some (.str s, [.str s])
+    | .bytes b => some (.bytes b, [.bytes b])
+    | .some v => (optBoth v).map fun x => (.prim 9 [x.1] none, [.prim 9 [x.1] none])
+    | .none _ => some (.prim 6 [] none, [.prim 6 [] none])
+    | .left v _ => (optBoth v).map fun x => (.prim 5 [x.1] none, [.prim 5 [x.1] none])
+    | .right _ v => (optBoth v).map fun x => (.prim 8 [x.1] none, [.prim 8 [x.1] none])
+    | .list _ xs => (optimizedL xs).map fun ys => (.seq ys, [.seq ys])
+    | .set _ xs => (optimizedL xs).map fun ys => (.seq ys, [.seq ys])
+    | .map _ _ xs => (optimizedE xs).map fun ys => (.seq ys, [.seq ys])
+    | _ => none
+  def optimizedL : List Val → Option (List BMich)
+    | [] => some []
+    | x :: xs =>
+      match optBoth x, optimizedL xs with
+      | some y, some ys => some (y.1 :: ys)
+      | _, _ => none
+  /-- the bindings of a map (`Pair key value` items of the model) as `Elt key value` -/
+  def optimizedE : List Val → Option (List BMich)
+    | [] => some []
+    | .pair k v :: xs =>
+      match optBoth k, optBoth v, optimizedE xs with
+      | some a, some b, some ys => some (.prim 4 [a.1, b.1] none :: ys)
+      | _, _, _ => none
+    | _ :: _ => none
+end
+
+/-- canonical optimized Micheline of a value of the plain data classes -/
+def optimized (v : Val) : Option BMich := (optBoth v).map (·.1)
+
+/-- 4-byte big-endian length prefix (`none`: 2^32 bytes or more) -/
+def lenPrefixed (data : List Nat) : Option (List Nat) :=
+  if data.length < 2 ^ 32 then some (beDigits 4 data.length ++ data) else none
+
+mutual
+  /-- binary Micheline of an annotation-free expression whose primitive applications have at most two arguments -/
+  def encodeM : BMich → Option (List Nat)
+    | .int v => some (0 :: Core.forgeInt v)
+    | .str s => (lenPrefixed s).map (1 :: ·)
+    | .bytes b => (lenPrefixed b).map (10 :: ·)
+    | .seq xs => ((encodeL xs).bind lenPrefixed).map (2 :: ·)
+    | .prim t [] none => some [3, t]
+    | .prim t [a] none => (encodeM a).map fun x => 5 :: t :: x
+    | .prim t [a, b] none =>
+      match encodeM a, encodeM b with
+      | some x, some y => some (7 :: t :: (x ++ y))
+      | _, _ => none
+    | .prim _ _ _ => none
+  def encodeL : List BMich → Option (List Nat)
+    | [] => some []
+    | x :: xs =>
+      match encodeM x, encodeL xs with
+      | some a, some b => some (a ++ b)
+      | _, _ => none
+end
+
+/-- PACK: defined on the plain data classes; a serialization of 2^32 bytes or more is a runtime failure -/
+def packV (v : Val) : Res Val :=
+  if !Typing.packable (typeOf v) then .stuck else
+  match optimized v with
+  | none => .stuck
+  | some m =>
+    match encodeM m with
+    | some bs => .ok (.bytes (5 :: bs))
+    | none => .rtfail
+
 /-- **extension 2, rules of the form `i / a : S ⇒ r : S`**.  `NEVER` has no rule (there is no value of type `never`). -/
 def unV (env : Env) (i : Instr) (a : Val) : Res Val :=
   match i with
@@ -321,6 +412,7 @@ def unV (env : Env) (i : Instr) (a : Val) : Res Val :=
   | .CONTRACT t ep => contractV t ep a
   | .SET_DELEGATE => setDelegateV env a
   | .EMIT tag t => emitV env tag t a
+  | .PACK => packV a
   | _ => .stuck
 
 def stepExt (env : Env) : Instr → List Val → Res (List Val)
